@@ -491,7 +491,16 @@ class Exec:
         if val is not None or getattr(k, 'returns', None) is not None:
             rty = getattr(k, 'returns', None)
             if rty is not None:
-                res = self.to_z3(val, rty) if isinstance(rty, Ty) else val
+                if isinstance(rty, Ty):
+                    try:
+                        res = self.to_z3(val, rty)
+                    except (z3.Z3Exception, Unsupported) as e:
+                        # the function returns something that is not of the declared result type at all: that is a failed
+                        # postcondition, not an engine problem
+                        self.vc('post.result-has-the-declared-type', z3.BoolVal(False), self.fn.lineno, note='returned %r, declared %s (%s)' % (val, rty.name, e))
+                        res = rty.fresh(self.path.fresh_name('illtyped_result')) if hasattr(rty, 'fresh') else z3.Const(self.path.fresh_name('illtyped_result'), rty.sort())
+                else:
+                    res = val
             elif isinstance(val, V):
                 res = val.t
             else:
@@ -1803,7 +1812,12 @@ class Exec:
                 if isinstance(v, V):
                     st.env[nm] = V(z3.Const(self.path.fresh_name('hv_' + nm), v.t.sort()), v.ty)
                 elif isinstance(v, C):
-                    pass        # container identity is stable; contents havoced above (boxes) or by modifies
+                    # the NAME is re-bound inside the loop (x = <other container>): after an arbitrary number of iterations it
+                    # may denote any container of its type, not the one it denoted on entry
+                    if self._rebound_in(s, nm):
+                        ty = self.world.local_type(self, nm, v) or v.ty
+                        st.env[nm] = self.newbox(z3.Const(self.path.fresh_name('hv_' + nm), ty.sort()), ty)
+                        self._last_havoced.add(st.env[nm].loc.bid)
                 elif v is None or isinstance(v, (int, str, bool, bytes, float)) or self.world.enum_of(v) is not None:
                     ty = self.world.local_type(self, nm, v)
                     if ty is None:
@@ -1867,6 +1881,26 @@ class Exec:
             if isinstance(v, C) and isinstance(v.loc, BoxLoc) and v.loc.bid in self.st.box:
                 out.append(v.loc.bid)
         return out
+
+    def _rebound_in(self, s, nm):
+        """is the local name the target of an assignment somewhere in the loop body (not just mutated through methods)?"""
+        for n in ast.walk(s):
+            if n is s:
+                continue
+            tgts = []
+            if isinstance(n, ast.Assign):
+                tgts = n.targets
+            elif isinstance(n, (ast.AugAssign, ast.AnnAssign)):
+                tgts = [n.target]
+            elif isinstance(n, (ast.For,)):
+                tgts = [n.target]
+            elif isinstance(n, ast.With):
+                tgts = [i.optional_vars for i in n.items if i.optional_vars is not None]
+            for t in tgts:
+                for m in ast.walk(t):
+                    if isinstance(m, ast.Name) and m.id == nm and isinstance(m.ctx, ast.Store):
+                        return True
+        return False
 
     def _target_names(self, s):
         if isinstance(s, ast.For):
